@@ -65,12 +65,10 @@ M('C01', 'decoded-signature-not-group-checked', STM + 'signature_scheme/bls_mult
 
 # ---------------------------------------------------------------- C02
 CLERK = STM + 'proof_system/concatenation/clerk.rs'
-M('C02', 'self-competition-guard-removed', CLERK,
-  """                    if previous_sig == sig_reg {
-                        // A repeated copy of the signature already holding this index is not a competitor
-                        continue;
-                    }
-""", '', ['self-competition'], 'F2 comes back')
+M('C02', 'copies-not-merged', CLERK,
+  "                .chain(sig_reg.sig.get_concatenation_signature_indices())\n", '', ['select:copies-merged'], 'F15 comes back: the indices of later copies are not merged into the entry')
+M('C02', 'contest-over-raw-input', CLERK,
+  'for sig_reg in valid_sigs.iter() {', 'for sig_reg in sigs.iter() {', ['select:verified-before'], 'the contest iterates the unverified input again')
 M('C02', 'invalid-sig-fatal', CLERK,
   """                .is_err()
             {
